@@ -22,6 +22,9 @@ from fractions import Fraction as Q
 from . import terms as tm
 from . import vc, smt
 from .interp import Interp, Unsupported, PyRaise, PathLimit
+from . import native as _native_mod
+
+_native_mod.use_repo_sources()      # (no-op for /repo) experiments against a scratch tree import its Python sources from the first native call on
 
 VERIF = os.path.dirname(os.path.dirname(os.path.abspath(__file__)))
 REPO = os.environ.get("CIDERPRESS_REPO", "/repo")
@@ -79,6 +82,8 @@ class Ctx(object):
             r["sample"] = sample
         if verdict.status == "refuted" and kind in ("obligation", "bounded") and replay is not None:
             try:
+                from . import native as _native
+                _native.use_repo_sources()
                 r["replay"] = jsonable(replay(verdict.witness))
             except Exception as e:  # replay harness failure is reported, not hidden
                 r["replay"] = {"reproduced": None, "error": "%s: %s" % (type(e).__name__, e)}
